@@ -246,6 +246,9 @@ func (t *simTransport) FastForward(target string, args *bnet.FastForwardRequest,
 // the simulator thread, so that the simulation stays deterministic.
 func (t *simTransport) Join(target string, args *bnet.JoinRequest, resp *bnet.JoinResponse) error {
 	nw := t.nw
+	if nw.joinDirect != nil {
+		return nw.joinDirect(target, args, resp)
+	}
 	pj := nw.joinOf[t.self.Idx]
 	if pj == nil {
 		return fmt.Errorf("sim: unexpected Join call")
@@ -346,6 +349,7 @@ type Network struct {
 	stopped bool
 	wantHost *SimNode
 	leaving  map[int]*ItxRecord
+	joinDirect func(target string, args *bnet.JoinRequest, resp *bnet.JoinResponse) error
 	idleAfterFair bool
 	lostPool map[int]bool // nodes that were restarted (their pending pool is legitimately gone)
 	// KeyLabel distinguishes key families
@@ -530,6 +534,15 @@ func (nw *Network) selectable(n *SimNode) []*peers.Peer {
 		}
 	}
 	return res
+}
+
+func (nw *Network) nodeByPub(pub string) *SimNode {
+	for _, n := range nw.Nodes {
+		if n.PubHex == pub {
+			return n
+		}
+	}
+	return nil
 }
 
 func (nw *Network) nodeByID(id uint32) *SimNode {
